@@ -154,6 +154,8 @@ def _stage_outputs(gen, ks, dm, nspin, model, rng_state):
         out["nldfgen"] = res
     if ni.sdmxgen is not None:
         out["sdmxgen"] = _sdmx_stage(ks, dm, nspin, r)
+    if not model.settings.has_sdmx:
+        out["grad"] = _grad_stage(ks, dm, nspin)
     # model evaluation on features (C kernels)
     nf = model.settings.nfeat
     nsl = model.settings.sl_settings.nfeat
@@ -162,6 +164,20 @@ def _stage_outputs(gen, ks, dm, nspin, model, rng_state):
     res_, dres_ = model(X, rhocut=1e-9)
     out["model"] = {"res": res_, "dres": dres_}
     return out
+
+
+def _grad_stage(ks, dm, nspin):
+    """Nuclear-gradient entry points (fixed grid and full grid response): XC force matrices and response sums."""
+    from ciderpress.pyscf import rks_grad, uks_grad
+    mod = rks_grad if nspin == 1 else uks_grad
+    ni = ks._numint
+    res = {}
+    e1, v1 = mod.get_vxc(ni, ks.mol, ks.grids, ks.xc, dm)
+    res["vmat_fixed_grid"] = np.asarray(v1)
+    e2, v2 = mod.get_vxc_full_response(ni, ks.mol, ks.grids, ks.xc, dm)
+    res["excsum_grid_response"] = np.asarray(e2)
+    res["vmat_grid_response"] = np.asarray(v2)
+    return res
 
 
 SDMX_BLOCKS = (600, 997, 1504)
@@ -359,6 +375,9 @@ def _tsan(case, rec, rng):
     dm = gen.psd_dm(mol, rng, nspin)
     n, e, v = gen.nr_eval(ks, dm)
     n2, e2, v2 = gen.nr_eval(ks, dm)
+    if not model.settings.has_sdmx:
+        g = _grad_stage(ks, dm, nspin)
+        rec.require("tsan_grad_finite", all(bool(np.all(np.isfinite(x))) for x in g.values()), mechanism="tsan-run:grad-nonfinite")
     rec.check("tsan_run_repeat", abs(e - e2) / max(abs(e), 1e-3), TOL, mechanism="tsan-run:repeat:excsum")
     rec.require("tsan_run_finite", bool(np.all(np.isfinite(v))), mechanism="tsan-run:nonfinite")
     sh = boot.shim_counters()
